@@ -16,6 +16,11 @@ pub fn d_switch_return(k: usize) -> u8 {
     4 + 2 * k as u8
 }
 
+/// `switch_and_return(set k, Err(..))` in a fallible rule of a lexer with rule sets (elsewhere: `return`)
+pub fn d_switch_err(k: usize) -> u8 {
+    200 + k as u8
+}
+
 pub fn show_decision(d: u8) -> String {
     match d {
         D_RETURN => "return".into(),
@@ -26,6 +31,7 @@ pub fn show_decision(d: u8) -> String {
         D_DEFAULT => "default".into(),
         d if d >= 3 && d < 200 && d % 2 == 1 => format!("switch({})", (d - 3) / 2),
         d if d >= 4 && d < 200 => format!("switch_and_return({})", (d - 4) / 2),
+        d if d >= 200 && d < 240 => format!("switch_and_return({}, Err)", d - 200),
         d => format!("?{d}"),
     }
 }
